@@ -342,8 +342,6 @@ func (bo *bufOnce) handOvers(f *ssa.Function) []handOver {
 // reachesAfterHandOver: some path leads from the hand-over to `to` that is consistent with the hand-over having
 // happened (edges on which its error result is known non-nil are not taken) and does not re-execute root's definition.
 func reachesAfterHandOver(ho handOver, to ssa.Instruction) bool {
-	def, _ := ho.root.(ssa.Instruction)
-	seen := map[*ssa.BasicBlock]bool{}
 	contradicts := func(iff *ssa.If, succ int) bool {
 		if ho.condNil == nil {
 			return false
@@ -360,31 +358,7 @@ func reachesAfterHandOver(ho handOver, to ssa.Instruction) bool {
 		}
 		return false
 	}
-	var scan func(b *ssa.BasicBlock, idx int) bool
-	scan = func(b *ssa.BasicBlock, idx int) bool {
-		for _, in := range b.Instrs[idx:] {
-			if in == to {
-				return true
-			}
-			if def != nil && in == def {
-				return false
-			}
-		}
-		iff, _ := b.Instrs[len(b.Instrs)-1].(*ssa.If)
-		for si, s := range b.Succs {
-			if iff != nil && contradicts(iff, si) {
-				continue
-			}
-			if !seen[s] {
-				seen[s] = true
-				if scan(s, 0) {
-					return true
-				}
-			}
-		}
-		return false
-	}
-	return scan(ho.at.b, ho.at.idx)
+	return reachesFrom(ho.at, guardsOf(ho.at.b), to, ho.root, contradicts)
 }
 
 // bufferOnce: in no function of the module is a buffer given back (PutBuffer, or a call that always gives it back)
@@ -455,13 +429,132 @@ func bufferOnce(r *Report, rule string) {
 	r.Sentinel(rule+".give-back", n, 4)
 }
 
-// reachesAvoidingDef: some path leads from just after `from` to `to` without re-executing the instruction that
-// defines root (a buffer obtained anew in each iteration of a loop is another buffer).
+// bufferUseAfterGiveBack: what has been given back to the pool is no longer read, written, sent or returned: the next
+// GetBuffer may already have handed it to somebody else.
+func bufferUseAfterGiveBack(r *Report, rule string) {
+	p := r.P
+	pb := p.Func("protocol", "PutBuffer")
+	if pb == nil {
+		return
+	}
+	bo := &bufOnce{p: p, pb: pb, memo: map[string]bool{}, busy: map[string]bool{}}
+	n := 0
+	for _, f := range p.SrcFuncs() {
+		type ev struct {
+			in   ssa.Instruction
+			root ssa.Value
+		}
+		var evs []ev
+		isEv := map[ssa.Instruction]bool{}
+		allInstrs(f, func(in ssa.Instruction) {
+			if c, ok := in.(*ssa.Call); ok {
+				if root := bo.consumes(c); root != nil {
+					evs = append(evs, ev{in, root})
+					isEv[in] = true
+				}
+			}
+		})
+		if len(evs) == 0 {
+			continue
+		}
+		r.Fn(f)
+		// uses of a buffer: calls, sends, stores, element accesses and returns whose operand belongs to root
+		usesRoot := func(in ssa.Instruction, root ssa.Value) bool {
+			if isEv[in] {
+				return false
+			}
+			switch x := in.(type) {
+			case *ssa.Call:
+				if b, ok := x.Call.Value.(*ssa.Builtin); ok && (b.Name() == "len" || b.Name() == "cap") {
+					return false
+				}
+			case *ssa.Go, *ssa.Defer, *ssa.Send, *ssa.IndexAddr, *ssa.Return, *ssa.Range:
+			case *ssa.Store:
+				return carriesBuffer(x.Val.Type()) && !isNilConst(x.Val) && bufRoot(x.Val, 0) == root
+			default:
+				return false
+			}
+			for _, op := range in.Operands(nil) {
+				if *op == nil || !carriesBuffer((*op).Type()) || isNilConst(*op) {
+					continue
+				}
+				if bufRoot(*op, 0) == root {
+					return true
+				}
+			}
+			return false
+		}
+		for _, e := range evs {
+			n++
+			var use ssa.Instruction
+			allInstrs(f, func(in ssa.Instruction) {
+				if use == nil && usesRoot(in, e.root) && reachesAvoidingDef(e.in, in, e.root) {
+					use = in
+				}
+			})
+			msg := ""
+			if use != nil {
+				msg = fmt.Sprintf("the buffer is used at %s after it was given back to the pool here: the pool may already have handed it to another reader or upload, so what is stored, sent or returned there is somebody else's data", p.Fset.Position(use.Pos()))
+			}
+			r.Check(use == nil, rule, fmt.Sprintf("%s/not-used-after-give-back", fname(f)), e.in.Pos(), "no use of the buffer is reachable from the point where it was given back", msg)
+		}
+	}
+	r.Sentinel(rule+".use-after", n, 4)
+}
+
+// reachesAvoidingDef: some feasible-looking path leads from just after `from` to `to` without re-executing the
+// instruction that defines root (a buffer obtained anew in each iteration of a loop is another buffer). Edges that
+// contradict a branch fact under which `from` executes (if err != nil { put }; if err == nil { … }) are not taken,
+// as long as the path has not gone back through the definition of the value tested.
 func reachesAvoidingDef(from, to ssa.Instruction, root ssa.Value) bool {
+	return reachesFrom(progPoint{from.Block(), instrIndex(from) + 1}, guardsOf(from.Block()), to, root, nil)
+}
+
+type subjFact struct {
+	x     ssa.Value
+	isNil bool
+}
+
+func reachesFrom(start progPoint, base []Guard, to ssa.Instruction, root ssa.Value, extra func(iff *ssa.If, succ int) bool) bool {
 	def, _ := root.(ssa.Instruction)
-	seen := map[*ssa.BasicBlock]bool{}
-	var scan func(b *ssa.BasicBlock, idx int) bool
-	scan = func(b *ssa.BasicBlock, idx int) bool {
+	var nilFacts []subjFact
+	conds := map[ssa.Value]bool{}
+	defBlocks := map[*ssa.BasicBlock]bool{}
+	note := func(v ssa.Value) {
+		if in, ok := v.(ssa.Instruction); ok && in.Block() != nil {
+			defBlocks[in.Block()] = true
+		}
+	}
+	for _, g := range base {
+		g = g.norm()
+		if x, isNil, ok := nilFact(g); ok {
+			nilFacts = append(nilFacts, subjFact{x, isNil})
+			note(x)
+		}
+		conds[g.Cond] = g.Pol
+		note(g.Cond)
+	}
+	contradicts := func(iff *ssa.If, succ int) bool {
+		g := Guard{Cond: iff.Cond, Pol: succ == 0}.norm()
+		if pol, ok := conds[g.Cond]; ok && pol != g.Pol {
+			return true
+		}
+		if x, isNil, ok := nilFact(g); ok {
+			for _, nf := range nilFacts {
+				if nf.x == x && nf.isNil != isNil {
+					return true
+				}
+			}
+		}
+		return false
+	}
+	type key struct {
+		b     *ssa.BasicBlock
+		stale bool
+	}
+	seen := map[key]bool{}
+	var scan func(b *ssa.BasicBlock, idx int, stale bool) bool
+	scan = func(b *ssa.BasicBlock, idx int, stale bool) bool {
 		for _, in := range b.Instrs[idx:] {
 			if in == to {
 				return true
@@ -470,15 +563,25 @@ func reachesAvoidingDef(from, to ssa.Instruction, root ssa.Value) bool {
 				return false
 			}
 		}
-		for _, s := range b.Succs {
-			if !seen[s] {
-				seen[s] = true
-				if scan(s, 0) {
+		iff, _ := b.Instrs[len(b.Instrs)-1].(*ssa.If)
+		for si, s2 := range b.Succs {
+			if iff != nil {
+				if extra != nil && extra(iff, si) {
+					continue
+				}
+				if !stale && contradicts(iff, si) {
+					continue
+				}
+			}
+			st := stale || defBlocks[s2] && s2 != start.b
+			if !seen[key{s2, st}] {
+				seen[key{s2, st}] = true
+				if scan(s2, 0, st) {
 					return true
 				}
 			}
 		}
 		return false
 	}
-	return scan(from.Block(), instrIndex(from)+1)
+	return scan(start.b, start.idx, false)
 }
